@@ -269,26 +269,9 @@ func runC17(c *Ctx) {
 		return
 	}
 	// list order
-	ordOK := false
-	if ld, ok := strip(toTry).(*ssa.UnOp); ok {
-		if ia, ok := ld.X.(*ssa.IndexAddr); ok && isCursorAddr(ia.X) {
-			if ph, ok := ia.Index.(*ssa.Phi); ok && len(ph.Edges) == 2 {
-				var init, step bool
-				for _, e := range ph.Edges {
-					if strings.HasSuffix(PathOf(e), ".tryIndex") {
-						init = true
-					}
-					if bo, ok := e.(*ssa.BinOp); ok && bo.Op == token.ADD && bo.X == ssa.Value(ph) {
-						if k, isK := constInt(bo.Y); isK && k == 1 {
-							step = true
-						}
-					}
-				}
-				ordOK = init && step
-			}
-		}
-	}
-	c.Check("list-order", "serversToTry[i], i=tryIndex..@nextServerToTry", cand, ordOK, "candidates must be taken from the list in order, starting at the saved cursor and advancing by one")
+	ordOK, ordWhy := listOrder(nx, toTry, cand, isCursorAddr)
+	c.Check("list-order", "serversToTry[i], i=tryIndex..@nextServerToTry", cand, ordOK,
+		"candidates must be taken from the list in order, starting at the saved cursor and advancing by one, and the cursor must be saved as the absolute position of the candidate: "+ordWhy)
 
 	mentions := func(cond ssa.Value, root func(ssa.Value) bool) bool {
 		return derivesFrom(cond, 6, root)
